@@ -90,26 +90,29 @@ PairTaken(k1, k2) == Tier = "t" \/ (KIdx(k1) + 2 * KIdx(k2) + Seed) % 3 = 0
 OpSeq == <<"+", "-", "*", "/", "%">>
 OpTaken(op, k1, k2) == Tier = "t" \/ op = "+" \/ op = OpSeq[Pick(KIdx(k1), KIdx(k2), 3, 4) + 1] \/ op = OpSeq[Pick(KIdx(k2), KIdx(k1), 4, 4) + 1]
 
-I(form, op, l, r) == [form |-> form, op |-> op, l |-> l, r |-> r]
+\* decl: how the variables are declared - "var" (var a T = T(v)) or "def" (a := T(v)).  The reference gives both the same
+\* meaning (the semantics below ignores decl); the interpreter compiles them differently (named vs register-slot locals).
+I(form, op, l, r) == [form |-> form, op |-> op, l |-> l, r |-> r, decl |-> "var"]
+Def(X) == X \cup { [x EXCEPT !.decl = "def"] : x \in X }
 AsgOps == {"+", "-", "*", "/"}
 BinVV == { x \in { I("bin", op, l, r) : op \in ArithOps, l \in VarDs(1), r \in VarDs2(2) } : OpTaken(x.op, x.l.k, x.r.k) }
 BinVC == { I("bin", op, l, r) : op \in ArithOps, l \in VarDs(3), r \in ConDs }
 \* tier "q" halves the constant-on-the-left cells and alternates the two assignment forms (seeded)
 Half(a, b) == Tier = "t" \/ (a + b + Seed) % 2 = 0
 BinCV == { x \in { I("bin", op, l, r) : op \in ArithOps, l \in ConDs, r \in VarDs(4) } : Half(x.l.i, KIdx(x.r.k)) }
-NegC  == { I("neg", "-", l, DN) : l \in VarDs3(5) }
-IncC  == { I("inc", op, l, DN) : op \in {"+", "-"}, l \in VarDs3(6) }
+NegC  == Def({ I("neg", "-", l, DN) : l \in VarDs3(5) })
+IncC  == Def({ I("inc", op, l, DN) : op \in {"+", "-"}, l \in VarDs3(6) })
 AsgVC(form) == { x \in { I(form, op, l, r) : op \in AsgOps, l \in VarDs(7), r \in ConDs } :
                  Half(x.r.i + (IF form = "cas" THEN 1 ELSE 0), KIdx(x.l.k)) }
 AsgVV(form) == { x \in { I(form, op, l, r) : op \in AsgOps, l \in VarDs(8), r \in VarDs2(9) } : PairTaken(x.l.k, x.r.k) }
 \* the increment forms written out with the constant 1, so that the three forms of the statement are all executed
-AsgOne(form) == { I(form, x.op, x.l, DC(1)) : x \in IncC }
+AsgOne(form) == { [x EXCEPT !.form = form, !.r = DC(1)] : x \in IncC }
 
 Index == IF Tier = "inc" THEN IncC ELSE       \* tier "inc": the increment cells only (negative control)
          BinVV \cup BinVC \cup BinCV \cup NegC \cup IncC
          \cup AsgVC("cas") \cup AsgVC("asg") \cup AsgVV("cas") \cup AsgVV("asg") \cup AsgOne("cas") \cup AsgOne("asg")
-Build(x) == [form |-> x.form, op |-> x.op, l |-> Opd(x.l), r |-> Opd(x.r)]
-NoCell   == [form |-> "none", op |-> "", l |-> NoOperand, r |-> NoOperand]
+Build(x) == [form |-> x.form, op |-> x.op, l |-> Opd(x.l), r |-> Opd(x.r), decl |-> x.decl]
+NoCell   == [form |-> "none", op |-> "", l |-> NoOperand, r |-> NoOperand, decl |-> "var"]
 
 \* ------------------------------------------------------------------ semantics of a cell (in one type-checking mode)
 \* the expression the statement evaluates: x++ is x + 1, x op= R is x op R (LANGUAGE.md "identical function", "the same as")
@@ -139,8 +142,8 @@ Spec == Init /\ [][Next]_vars
 OpdRec(o) == [c |-> o.c, k |-> o.v.k, cls |-> o.cls, lit |-> LitStr(o.v), slit |-> SLitStr(o.v), val |-> ValStr(o.v)]
 OpdKey(o) == IF o.cls = "none" THEN "-" ELSE IF o.c THEN "c:" \o o.cls ELSE "v:" \o o.v.k
 \* abstract identity of the case: everything except the values of the variables (the harness appends the mode)
-Key(c) == c.form \o "/" \o c.op \o "/" \o OpdKey(c.l) \o "/" \o OpdKey(c.r)
-Rec(c, o) == [key |-> Key(c), form |-> c.form, op |-> c.op, l |-> OpdRec(c.l), r |-> OpdRec(c.r), exp |-> o]
+Key(c) == c.form \o (IF c.decl = "def" THEN ":=" ELSE "") \o "/" \o c.op \o "/" \o OpdKey(c.l) \o "/" \o OpdKey(c.r)
+Rec(c, o) == [key |-> Key(c), form |-> c.form, decl |-> c.decl, op |-> c.op, l |-> OpdRec(c.l), r |-> OpdRec(c.r), exp |-> o]
 Emit == pc = "post" /\ (\E m \in Modes : out[m].wf) => PrintT(ToJson(Rec(cell, out)))
 
 \* ------------------------------------------------------------------ theorems of the table
